@@ -2,6 +2,7 @@ import CapyV.Driver.C25
 import CapyV.Driver.C17
 import CapyV.Driver.C03
 import CapyV.Driver.C27
+import CapyV.Driver.C22
 open CapyV.Driver
 
 def dispatch (line : String) : String :=
@@ -10,6 +11,7 @@ def dispatch (line : String) : String :=
   | "C17" :: args => c17 args
   | "C03" :: args => c03 args
   | "C27" :: args => c27 args
+  | "C22" :: args => c22 args
   | _ => "bad-op"
 
 partial def loop (h : IO.FS.Stream) (out : IO.FS.Stream) : IO Unit := do
